@@ -1,6 +1,7 @@
 package main
 
 import (
+	"regexp"
 	"go/token"
 	"fmt"
 	"math/big"
@@ -927,7 +928,19 @@ func (env *SpecEnv) callExpr(x ECall) Val {
 		if t == nil {
 			return env.fail("unknown type in unbox")
 		}
-		return Val{T: e.unbox(app("if_val", v.T), t), S: e.ctx.sortOf(t), GoT: t}
+		ub := e.unbox(app("if_val", v.T), t)
+		if !e.ctx.bv && !env.typeOnly && env.st != nil && !boundVarRe.MatchString(ub) {
+			switch t.Underlying().(type) {
+			case *types.Pointer, *types.Map, *types.Chan:
+				// a reference held in an interface value points to an allocated object (or is nil)
+				key := "unboxalloc:" + ub + ":" + env.st.nextRef
+				if !e.boxAx[key] {
+					e.boxAx[key] = true
+					e.ctx.assume(imp(eq(app("if_tag", v.T), num(int64(e.typeTag(t)))), lt(app("root", ub), env.st.nextRef)))
+				}
+			}
+		}
+		return Val{T: ub, S: e.ctx.sortOf(t), GoT: t}
 	case "visited":
 		// visited() -> the ghost set of the innermost map range; visited(k) membership
 		name := env.innermostRange("$visited")
@@ -1225,6 +1238,9 @@ func (env *SpecEnv) allFields(ref string, t types.Type) []heapLoc {
 }
 
 var _ = constant.MakeBool
+
+// terms that mention a bound variable of an enclosing quantifier (x_q12)
+var boundVarRe = regexp.MustCompile(`_q[0-9]+\b`)
 
 // binaryBV: arithmetic and comparisons in bit-precise mode.
 func (env *SpecEnv) binaryBV(x EBin, l, r Val) Val {
